@@ -61,6 +61,10 @@ def assumptions(prop, summarised, axioms):
 PROP_MODELS = {
     'C03': ['numpy.poly1d'],
     'C19': ['numpy.poly1d', 'numpy.roots'],
+    'C05': ['sqrt', 'mutableseq'],
+    'C09': ['mutableseq'],
+    'C10': ['trig', 'numpy.small', 'numpy.poly1d', 'mutableseq'],
+    'C13': ['sqrt', 'numpy.poly1d', 'numpy.roots', 'mutableseq'],
 }
 
 PROP_NOTES = {
@@ -129,3 +133,49 @@ for _cls in ('Line', 'QuadraticBezier', 'CubicBezier'):
     summary('path.%s.point' % _cls, verified_by='C03 (point(t)==bernstein)')(_point_summary)
     summary('path.%s.poly' % _cls, verified_by='C03 (coeffs==monomial-basis-coefficients)')(_poly_summary)
     summary('path.%s.bpoints' % _cls, verified_by='C03 (bpoints-are-the-control-points)')(_bpoints_summary)
+
+
+# ---- arc length as an uninterpreted function of the control points and the interval.
+# Contract of QuadraticBezier/CubicBezier.length at call sites: a value LEN(P, t0, t1) >= 0 that
+# depends only on the current control points and the interval (so repeated calls agree: this is
+# the cache-transparency that C16 verifies on the real `length`), LEN(P,t,t) = 0.
+# Line.length is executed in place (closed form).
+
+def _len_fun(n):
+    import z3
+    R = z3.RealSort()
+    return z3.Function('LEN%d' % n, *([R] * (2 * n + 2) + [R]))
+
+
+def LEN(P, t0, t1):
+    """the spec-side arc length symbol for control points P on [t0, t1]"""
+    from pyvc import sym
+    import z3
+    n = len(P)
+    args = []
+    for p in P:
+        args += [sym.zreal(sym.real_of(p)), sym.zreal(sym.imag_of(p))]
+    args += [sym.zreal(t0), sym.zreal(t1)]
+    r = sym.Re(_len_fun(n)(*args))
+    c = sym.ctx()
+    key = ('LEN', r.t.get_id())
+    if key not in c.witness:
+        c.witness[key] = r
+        c.keep.append(r.t)
+        c.fact(r.t >= 0)
+    return r
+
+
+def _length_summary(ip, f, args, kwargs):
+    seg = args[0]
+    names = ['t0', 't1', 'error', 'min_depth']
+    vals = {'t0': 0, 't1': 1}
+    for nm, v in zip(names, args[1:]):
+        vals[nm] = v
+    for k, v in kwargs.items():
+        vals[k] = v
+    return LEN(_bpoints_of(ip, seg), vals['t0'], vals['t1'])
+
+
+for _cls in ('QuadraticBezier', 'CubicBezier'):
+    summary('path.%s.length' % _cls, verified_by='C06/C16 (length contracts: non-negative, depends only on current control points and interval)')(_length_summary)
